@@ -205,6 +205,18 @@ def search(ctx):
                     break
             if out:
                 break
+    # the frames through EVERY frame-level format (EByte, USB, Yacht Devices), byte contents that look like framing
+    # (AA 55 pairs, CR / LF, all-FF, all-00): nothing until the last frame, then the payload
+    if not out:
+        w = _formats_sweep(ctx, P)
+        if w:
+            out.append(w)
+    # another decoder object in the same process holds an unfinished message of the same stream and counter: a new
+    # decoder starts empty
+    if not out:
+        w = _two_decoders(ctx, P)
+        if w:
+            out.append(w)
     # public path for encodable fast definitions: frames of encode_ebyte fed to decode_tcp give the message that
     # direct decoding of the encoder's payload gives
     if not out:
@@ -212,13 +224,113 @@ def search(ctx):
     return out
 
 
-def _public_path(ctx, P):
+def _feed_format(fmt, key, frames, rng, dec):
+    """frames (lists of data bytes) rendered in format fmt (0 EByte, 1 USB, 2 Yacht Devices) into dec: list of outcomes"""
+    from props import c06 as W
+    from props import c07 as C7
+    ident = c04.can_id(key[0], key[1], key[2], 3)
+    outs = []
+    for f in frames:
+        x = W.render(fmt, ident, bytes(f), rng, C7.ref_extract, False)
+        try:
+            m = (dec.decode_tcp, dec.decode_usb, dec.decode_yacht_devices_string)[fmt](x)
+        except Exception as e:  # noqa: BLE001
+            outs.append(("raises", type(e).__name__))
+            continue
+        if m is None:
+            outs.append(("none",))
+        else:
+            try:
+                outs.append(("msg", c04.msg_int(m)))
+            except Exception:  # noqa: BLE001
+                outs.append(("other", repr(m)[:60]))
+    return outs
+
+
+def _content(rng, n, kind):
+    if kind == "aa55":
+        b = bytes([0xAA, 0x55] * (n // 2 + 1))[:n]
+    elif kind == "55aa":
+        b = bytes([0x55, 0xAA] * (n // 2 + 1))[:n]
+    elif kind == "crlf":
+        b = bytes([0x0D, 0x0A] * (n // 2 + 1))[:n]
+    elif kind == "ff":
+        b = bytes([0xFF] * n)
+    elif kind == "zero":
+        b = bytes(n)
+    else:
+        b = bytearray(rng.getrandbits(8) for _ in range(n))
+        for _ in range(rng.randint(0, 3)):
+            if n >= 2:
+                i = rng.randrange(n - 1)
+                b[i:i + 2] = b"\xaa\x55"
+        b = bytes(b)
+    return b
+
+
+def _formats_sweep(ctx, P):
+    from nmea2000.decoder import NMEA2000Decoder
+    rng = ctx.rng
+    names = {0: "ebyte/decode_tcp", 1: "usb/decode_usb", 2: "yacht devices/decode_yacht_devices_string"}
+    lengths = [0, 1, 5, 6, 7, 8, 12, 13, 14, 20, 21, 27, 43, 100, 222, 223]
+    for n in lengths + [rng.randrange(224) for _ in range(ctx.n(10, 120))]:
+        for kind in ("aa55", "55aa", "crlf", "ff", "zero", "rand"):
+            s = rng.randrange(8)
+            key = (126720, 11, 22) if (n + s) % 2 else (130816, 11, 255)
+            body = _content(rng, max(0, n - 2), kind)
+            # the first two payload bytes carry the manufacturer / industry code the fallback definitions need
+            p = list(c04.fallback_payload(rng, key[0], n, P))
+            p = p[:2] + list(body)[:max(0, n - 2)] if n >= 2 else p
+            fr, _ = _enc(s, p)
+            if fr is None:
+                continue
+            want = int.from_bytes(bytes(p), "little")
+            for fmt in (0, 1, 2):
+                got = _feed_format(fmt, key, fr, rng, NMEA2000Decoder())
+                ok = all(o == ("none",) for o in got[:-1]) and got[-1][0] == "msg" and got[-1][1] == want
+                if not ok:
+                    return {"key": f"formats:{names[fmt].split('/')[0]}:message-lost-or-wrong", "kind": "formats", "fmt": fmt,
+                            "seq": s, "payload": bytes(p).hex(), "stream": list(key),
+                            "what": f"{n}-byte payload {bytes(p).hex()[:60]} (content class {kind}), counter {s}, through {names[fmt]}: "
+                                    f"frames answered {[o[0] for o in got]}" +
+                                    ("" if got[-1][0] != "msg" else " with another payload")}
+    return None
+
+
+def _two_decoders(ctx, P):
+    from nmea2000.decoder import NMEA2000Decoder
+    rng = ctx.rng
+    for _ in range(ctx.n(8, 60)):
+        s = rng.randrange(8)
+        key = rng.choice([(126720, 11, 22), (130816, 11, 255)])
+        pa = list(c04.fallback_payload(rng, key[0], rng.choice([20, 27, 50]), P))
+        pb = list(c04.fallback_payload(rng, key[0], rng.choice([20, 27, 50]), P))
+        fa, _ = _enc(s, pa)
+        fb, _ = _enc(s, pb)
+        other = NMEA2000Decoder()
+        for f in fa[:rng.randint(1, len(fa) - 1)]:          # an abandoned transfer held by ANOTHER decoder object
+            c04.observe(other, c04.packet(key, f))
+        d = NMEA2000Decoder()
+        got = [c04.observe(d, c04.packet(key, f)) for f in fb]
+        ok = all(o[0] == "none" for o in got[:-1]) and got[-1][0] == "msg" and got[-1][1] == int.from_bytes(bytes(pb), "little")
+        if not ok:
+            return {"key": "instances:new-decoder-does-not-start-empty", "kind": "two-dec", "seq": s, "stream": list(key),
+                    "pa": bytes(pa).hex(), "pb": bytes(pb).hex(),
+                    "what": f"a NEW decoder fed the frames of one message (counter {s}) answers {[list(o)[:1] for o in got]}"
+                            + (" with another payload" if got[-1][0] == "msg" else "")
+                            + " while another decoder object of the process holds an unfinished message of the same stream and counter"}
+    return None
+
+
+def _public_path(ctx, P, only=None):
     from nmea2000.decoder import NMEA2000Decoder
     from nmea2000.encoder import NMEA2000Encoder
     rng = ctx.rng
     tried = okc = 0
     for name in sorted(n for n in dir(P) if n.startswith("is_fast_pgn_")):
         pgn = int(name[12:])
+        if only is not None and pgn != only:
+            continue
         try:
             if getattr(P, name)() is not True:
                 continue
@@ -227,7 +339,7 @@ def _public_path(ctx, P):
         dfun = getattr(P, f"decode_pgn_{pgn}", None)
         if dfun is None:
             continue
-        for _ in range(3):
+        for _ in range(3 if only is None else 12):
             try:
                 m0 = dfun(rng.getrandbits(8 * rng.choice([8, 20, 40])) if rng.random() < 0.5 else 0)
                 if m0 is None:
@@ -270,6 +382,31 @@ def replay(ctx, data):
         return v is not None
     if w.get("kind") == "history":
         return c04.replay(ctx, data)
+    if w.get("kind") == "formats":
+        from nmea2000.decoder import NMEA2000Decoder
+        p = list(bytes.fromhex(w["payload"]))
+        fr, _ = _enc(w["seq"], p)
+        got = _feed_format(w["fmt"], tuple(w["stream"]), fr, ctx.rng, NMEA2000Decoder())
+        ok = all(o == ("none",) for o in got[:-1]) and got[-1][0] == "msg" and got[-1][1] == int.from_bytes(bytes(p), "little")
+        print("observed:", "property holds on this input" if ok else f"frames answered {[o[0] for o in got]}")
+        return not ok
+    if w.get("kind") == "two-dec":
+        from nmea2000.decoder import NMEA2000Decoder
+        key = tuple(w["stream"])
+        fa, _ = _enc(w["seq"], list(bytes.fromhex(w["pa"])))
+        fb, _ = _enc(w["seq"], list(bytes.fromhex(w["pb"])))
+        bad = False
+        for cut in range(1, len(fa)):
+            other = NMEA2000Decoder()
+            for f in fa[:cut]:
+                c04.observe(other, c04.packet(key, f))
+            d = NMEA2000Decoder()
+            got = [c04.observe(d, c04.packet(key, f)) for f in fb]
+            if not (all(o[0] == "none" for o in got[:-1]) and got[-1][0] == "msg"
+                    and got[-1][1] == int.from_bytes(bytes.fromhex(w["pb"]), "little")):
+                bad = True
+        print("observed:", "a new decoder does not start empty" if bad else "property holds on this input")
+        return bad
     if w.get("kind") == "mseq":
         from nmea2000.decoder import NMEA2000Decoder
         from nmea2000.encoder import NMEA2000Encoder
@@ -288,6 +425,10 @@ def replay(ctx, data):
                 break
         print("observed:", f"initial counter {bad[0]}: message {bad[1]} answered {bad[2]}" if bad else "property holds on this input")
         return bad is not None
+    if w.get("kind") == "public" and "pgn" in w:
+        r = _public_path(ctx, P, only=int(w["pgn"]))
+        print("observed:", r[0]["what"] if r else "property holds on this input")
+        return bool(r)
     r = search(ctx)
     print("observed:", r[0]["what"] if r else "property holds")
     return bool(r)
